@@ -43,7 +43,14 @@ SPEC = {
              "with a JSON structural character - each of ] } , : [ { and the quote in turn, followed by one of 5-10 tails incl. nothing, the "
              "same character again, a complete valid entry, a second array - which can never continue a well-formed file; for http/json such a "
              "case is, one time in three, written as one top-level array, and in half of the cases G follows the last valid value after "
-             "no whitespace, a space, a tab, a newline, CRLF or blank lines instead of on a fresh line). F6: scengen descriptions (YAML and HCL) with 1-2 "
+             "no whitespace, a space, a tab, a newline, CRLF or blank lines instead of on a fresh line); one metamorphic case in five puts ONE VERY "
+             "LONG LINE behind the valid entries instead (added after seeded defect C13/m7): for the two bufio.Scanner formats a line of "
+             "1 / 2 / 7 / 64 / 4500 / limit/16 bytes more than the reader's token limit - 65536 for uri and grpc/json, or grpc/json's "
+             "`maxammosize` set to 512 / 1024 / 4096 / 20000 in half of its cases -, as a well-formed entry padded to that length (two of three) "
+             "or junk / a header line that never closes, one entry line in four staying 2 / 3 / 16 / limit/4 bytes UNDER the limit as the "
+             "control; for http/json a padded entry or junk around 65536 bytes, for uripost / raw a junk header line of 5000-70000 bytes; "
+             "grpc/json with 1-2 valid entries behind the line in half of the cases; passes 0 / 1 / 2, limit 0 / 1 / 2 / 5 / 12 (passes 0 "
+             "without a limit only where the first pass must end in an error). F6: scengen descriptions (YAML and HCL) with 1-2 "
              "structured mutations out of 27 (leading / only sleep(), sleep() behind 1-3 steps name(c) with c <= 0 that build no request - in "
              "front of the list, in place of it or in front of its tail -, zero / negative multiplicities on all steps, on the steps in "
              "front of the first sleep() or on one step, 20 bad step strings, unknown request, no scenarios, no step "
@@ -65,6 +72,14 @@ SPEC = {
         "TestF4HTTPJSON/meta_garbage_glued_after_array": 0.015, "TestF4HTTPJSON/meta_garbage_glued_after_lines": 0.02,
         "TestF4HTTPJSON/meta_garbage_first_close_bracket_after_array": 0.002, "TestF4HTTPJSON/meta_garbage_first_close_brace_after_array": 0.002,
         "TestF4HTTPJSON/meta_garbage_first_comma_after_array": 0.0015, "TestF4HTTPJSON/meta_garbage_first_colon_after_array": 0.0015,
+        # classes added after seeded defect C13/m7 (a line longer than the scanner's token limit behind valid entries)
+        "TestF5GrpcJSON/meta_long_line_over_limit": 0.02, "TestF5GrpcJSON/meta_long_line_over_limit_then_valid": 0.01,
+        "TestF5GrpcJSON/meta_long_line_over_max_ammo_size": 0.008, "TestF5GrpcJSON/meta_long_line_over_limit_with_limit": 0.002,
+        "TestF5GrpcJSON/meta_long_line_passes_0": 0.0025, "TestF5GrpcJSON/meta_long_line_passes_1": 0.006,
+        "TestF5GrpcJSON/meta_long_line_delivered": 0.003, "TestF5GrpcJSON/meta_long_line_rejected": 0.02,
+        "TestF1Uri/meta_long_line_over_limit": 0.02, "TestF1Uri/meta_long_line_rejected": 0.015, "TestF1Uri/meta_long_line_delivered": 0.004,
+        "TestF1Uri/meta_long_line_over_limit_with_limit": 0.006, "TestF1Uri/meta_long_line_passes_0": 0.005,
+        "TestF2Uripost/meta_long_line_rejected": 0.02, "TestF3Raw/meta_long_line_rejected": 0.02, "TestF4HTTPJSON/meta_long_line_rejected": 0.008,
         "TestF2Uripost/op_digits": 0.1, "TestF3Raw/op_digits": 0.1, "TestF1Uri/preload": 0.3, "TestF5GrpcJSON/continue_on_error": 0.3,
         "TestF6Scenario/syntax_hcl": 0.15, "TestF6Scenario/kind_grpc": 0.2, "TestF6Scenario/must_reject_rejected": 0.1,
         "TestF6Scenario/accepted": 0.1, "TestF6Scenario/rejected_at_construction": 0.2,
@@ -90,7 +105,14 @@ SPEC = {
                  "pass; every delivered entry is well-formed. Metamorphic: with garbage G after a valid file V the first |V| entries "
                  "delivered are exactly V's (method, URI, body, tag, Host, headers), and when G is malformed by the format's documentation "
                  "Run must return an error after exactly |V| entries (streaming) / at most |V| (preload); grpc/json with continueonerror "
-                 "delivers the good lines of every pass, marks the bad one invalid and returns nil. Structured scenario mutations and "
+                 "delivers the good lines of every pass, marks the bad one invalid and returns nil. A very long line behind |V| valid entries: "
+                 "junk, a header that never closes, and any grpc/json line longer than `maxammosize` / 65536 (\"maximum number of byte in an "
+                 "ammo\") must make Run return an error after exactly the |V| entries, for every passes / limit setting whose limit lies "
+                 "behind the line (grpc/json with continueonerror may instead skip it: all good lines of every pass, one invalid mark per "
+                 "pass); a well-formed entry under the limit must be delivered in every pass in its place (grpc/json: compared field by "
+                 "field); a well-formed uri / http/json entry over 65536 bytes, a limit those formats' documentation does not state, may be "
+                 "rejected that way or delivered, but the run never ends without an error short of passes x entries / limit - a line is never "
+                 "dropped silently, alone or with what follows it. Structured scenario mutations and "
                  "unresolvable config placeholders that are malformed by construction must be rejected with an error."),
         "note": ("Listed known findings are steered around by construction and excused only by symptom (the panicking / spinning frame); "
                  "their fixed witnesses run in TestWitnesses. Inputs holding a number of >= 9 digits are first judged with it replaced by 3e8 (ammo), 1e8 "
